@@ -23,12 +23,12 @@ impl VKind {
 }
 
 #[derive(Clone, Copy, Debug, PartialEq)]
-pub enum DataClass { SmallInt, Dyadic, Decimal, TolBoundary, Extreme }
+pub enum DataClass { SmallInt, Dyadic, Decimal, TolBoundary, Extreme, Large }
 impl DataClass {
     pub fn tag(&self) -> &'static str {
         match self {
             DataClass::SmallInt => "data:small-int", DataClass::Dyadic => "data:dyadic", DataClass::Decimal => "data:decimal",
-            DataClass::TolBoundary => "data:tol-boundary", DataClass::Extreme => "data:extreme",
+            DataClass::TolBoundary => "data:tol-boundary", DataClass::Extreme => "data:extreme", DataClass::Large => "data:large-magnitude",
         }
     }
 }
@@ -44,6 +44,9 @@ pub struct LpSpec {
     pub class: DataClass,
 }
 
+/// offsets between near-equal large values: below / around the absolute tolerance, and far above it but below a
+/// RELATIVE 1e-5 at magnitude 1e7..1e8
+pub const LARGE_DELTAS: [f64; 9] = [1e-6, 1e-5, 2e-5, 1e-4, 1e-3, 0.125, 1.0, 150.0, 1e3];
 pub const PERTURB: [f64; 6] = [1e-10, 1e-9, 2e-9, 1e-6, 1e-5, 2e-5];
 
 pub fn value(r: &mut Rng, class: DataClass, lo: i64, hi: i64) -> f64 {
@@ -60,6 +63,11 @@ pub fn value(r: &mut Rng, class: DataClass, lo: i64, hi: i64) -> f64 {
                 // also half a tolerance and the exact boundary
                 match r.below(4) { 0 => base + s, 1 => base + s * 0.5, 2 => base + s * 0.999, _ => base + s * 1.001 }
             }
+        }
+        // large magnitudes (up to 1e8) with near-equal values: k*10^e, and such a value +- {1e-6 .. 1e3}
+        DataClass::Large => {
+            let base = (if k == 0.0 { 1.0 } else { k }) * [1e3, 1e5, 1e6, 2e7, 1e8][r.below(5)];
+            match r.below(3) { 0 => k, 1 => base, _ => base + LARGE_DELTAS[r.below(LARGE_DELTAS.len())] * (if r.chance(1, 2) { 1.0 } else { -1.0 }) }
         }
         DataClass::Extreme => match r.below(8) {
             0 => 0.0, 1 => -0.0, 2 => 1e9, 3 => -1e9, 4 => 1e-9, 5 => k * 1e6, _ => k,
